@@ -274,6 +274,31 @@ func suiteStructs(r *Rng, n int, thorough bool, o *Out) {
 				pvW = "FAIL:wrapper's type: " + m
 			}
 		}
+		if accepted && !pw && pvW == "ok" && r.chance(1, 3) {
+			// what a wrapper says about its struct is what the tags declare, whatever a caller
+			// did to the Type an earlier wrapper of that struct type returned
+			o.stat("wrap.again-after-edit")
+			wt := w.GetType()
+			if wt.Attrs != nil {
+				wt.Attrs["added-by-the-caller"] = jsonapi.Attr{Name: "added-by-the-caller", Type: jsonapi.AttrTypeBool}
+			}
+			for k := range wt.Rels {
+				delete(wt.Rels, k)
+				break
+			}
+			for k := range w.Attrs() {
+				delete(w.Attrs(), k)
+				break
+			}
+			var w2 *jsonapi.Wrapper
+			if p2, _ := guard(func() { w2 = jsonapi.Wrap(mk()) }); p2 {
+				pvW = "FAIL:wrapping a second value of the struct type panics"
+			} else if m := declaredTypeMismatch(st, w2.GetType()); m != "" {
+				pvW = "FAIL:second wrapper's type (after the first one's was edited): " + m
+			} else {
+				w = w2
+			}
+		}
 		o.emit(lst("struct", "wrap", sh.sx), obsW, pvW)
 		if pw {
 			continue
